@@ -67,6 +67,12 @@ func VH_C17_BanTable_sym() {
 	}
 	b2, _ := bf.IsBanned("10.1.2.4")
 	vAssert("other_address_unaffected", !b2)
+	writesAfterFirst := 0
+	for _, op := range vfsLog {
+		if op.kind == "write" {
+			writesAfterFirst++
+		}
+	}
 	// banning the same address again replaces the earlier ban (temporary -> permanent, or a fresh expiry)
 	later := vTimeAny("later")
 	if vBool("second_permanent") {
@@ -78,4 +84,11 @@ func VH_C17_BanTable_sym() {
 		_, u2 := bf.IsBanned("10.1.2.3")
 		vAssert("reban_new_expiry_takes_effect", err == nil && u2 != nil && u2.Equal(later))
 	}
+	writes := 0
+	for _, op := range vfsLog {
+		if op.kind == "write" {
+			writes++
+		}
+	}
+	vAssert("second_ban_is_saved_too", writes > writesAfterFirst)
 }
